@@ -33,9 +33,35 @@ type bcase struct {
 	Keys   int   `json:"keys"`          // 2 = with the mirrored key K2
 }
 
-var exchanges = [6][2]int{{0, 1}, {0, 2}, {1, 0}, {1, 2}, {2, 0}, {2, 1}}
+// exchanges 0..5: push X>Y (X's gossip-latest into Y's shard.repair; also what the liaison's read repair does).
+// exchanges 6..11: gossip session I<>S: replica I initiates (gossip client), replica S is contacted (gossip server);
+// the server side is the real repairGossipServer.processPropertySync / processPropertyMissing, and what it sends back
+// is repaired into I.
+const nEx = 12
 
-func exName(e int) string { return fmt.Sprintf("%d>%d", exchanges[e][0], exchanges[e][1]) }
+var exchanges = [nEx][2]int{{0, 1}, {0, 2}, {1, 0}, {1, 2}, {2, 0}, {2, 1}, {0, 1}, {0, 2}, {1, 0}, {1, 2}, {2, 0}, {2, 1}}
+
+func isSession(e int) bool { return e >= 6 }
+
+func exName(e int) string {
+	if isSession(e) {
+		return fmt.Sprintf("%d<>%d", exchanges[e][0], exchanges[e][1])
+	}
+	return fmt.Sprintf("%d>%d", exchanges[e][0], exchanges[e][1])
+}
+
+// after exchange e, whose initial information has reached whom
+func spread(k [3][3]bool, e int) [3][3]bool {
+	sx, sy := exchanges[e][0], exchanges[e][1]
+	n := k
+	for r := 0; r < 3; r++ {
+		n[r][sy] = k[r][sy] || k[r][sx]
+		if isSession(e) {
+			n[r][sx] = k[r][sx] || k[r][sy]
+		}
+	}
+	return n
+}
 
 // stream returns the events of a shape: i>0 = update u_i, 0 = delete.
 func stream(nu, shape int) []int {
@@ -112,6 +138,7 @@ func canonicalAssignments(n int) [][]int {
 
 type bkeys struct {
 	ids   [2]string
+	names [2]string
 	props [2][4]*propertyv1.Property // [key][i] i=1..3
 }
 
@@ -121,11 +148,13 @@ func newKeys() *bkeys {
 	bSerial++
 	k := &bkeys{}
 	for ki := 0; ki < 2; ki++ {
-		k.ids[ki] = fmt.Sprintf("x%d-k%d", bSerial, ki+1)
+		// K2 has the SAME id as K1 under another property name: keys are group/name/id
+		k.ids[ki] = fmt.Sprintf("x%d", bSerial)
+		k.names[ki] = [2]string{propName, propName2}[ki]
 		for i := 1; i <= 3; i++ {
 			k.props[ki][i] = &propertyv1.Property{
 				Metadata: &commonv1.Metadata{
-					Group: group, Name: propName,
+					Group: group, Name: k.names[ki],
 					ModRevision:    bRev(ki, i),
 					CreateRevision: bRev(ki, 1),
 				},
@@ -312,7 +341,7 @@ func (x *bexec) art() any {
 }
 
 func observeOne(rep *node, k *bkeys, ki int) []bdoc {
-	res, err := rep.db.Query(bg, &propertyv1.QueryRequest{Groups: []string{group}, Name: propName, Ids: []string{k.ids[ki]}, Limit: 100})
+	res, err := rep.db.Query(bg, &propertyv1.QueryRequest{Groups: []string{group}, Name: k.names[ki], Ids: []string{k.ids[ki]}, Limit: 100})
 	if err != nil {
 		fatal("Query: %v", err)
 	}
@@ -378,14 +407,38 @@ func startB(reps []*node, c bcase, nk int, sink *vsink, out *bOutcomes) *bexec {
 	return x
 }
 
-// step applies exchange e (X>Y): X's gossip-latest of every key is pushed into Y's shard.repair; then the oracle.
+// step applies exchange e and judges it. Push X>Y: X's gossip-latest of every key goes into Y's shard.repair.
+// Session I<>S: see VerifC18GossipSession. Oracle: every replica that takes part as a receiver (Y; both I and S in a
+// session) ends with the join of the two values; nothing else changes.
 func (x *bexec) step(e int) {
 	sx, sy := exchanges[e][0], exchanges[e][1]
 	x.c.Seq = append(x.c.Seq, e)
 	x.lastK1Viol = ""
 	pre := x.st
 	for ki := 0; ki < x.nk; ki++ {
-		id, p, dt, found, err := propdb.VerifC18GossipLatest(bg, x.reps[sx].db, group, 0, propName, x.k.ids[ki])
+		if isSession(e) {
+			rounds, trace, cut, err := propdb.VerifC18GossipSession(bg, x.reps[sx].db, x.reps[sy].db, group, 0, x.k.names[ki], x.k.ids[ki])
+			if err != nil {
+				fatal("gossip session: %v", err)
+			}
+			x.out.add(fmt.Sprintf("session:%s", strings.Join(trace, "/")))
+			if cut {
+				// classify the state the ping-pong happens in (read back from the replicas)
+				a, b := top(pre[sx][ki]), top(pre[sy][ki])
+				dup := false
+				for i := 1; i < len(pre[sy][ki]); i++ {
+					dup = dup || pre[sy][ki][i].Rev == pre[sy][ki][i-1].Rev
+				}
+				eq := "different-revisions"
+				if a.Rev == b.Rev {
+					eq = "equal-rev"
+				}
+				x.sink.add(fmt.Sprintf("b/session does not terminate (cut after %d server rounds): %s initiator=%s server=%s server-stores-two-documents-of-one-revision=%v",
+					rounds, eq, a.kind(), b.kind(), dup), x.art())
+			}
+			continue
+		}
+		id, p, dt, found, err := propdb.VerifC18GossipLatest(bg, x.reps[sx].db, group, 0, x.k.names[ki], x.k.ids[ki])
 		if err != nil {
 			fatal("gossip latest: %v", err)
 		}
@@ -401,12 +454,13 @@ func (x *bexec) step(e int) {
 	}
 	for ki := 0; ki < x.nk; ki++ {
 		x.st[sy][ki] = observeOne(x.reps[sy], x.k, ki)
+		if isSession(e) {
+			x.st[sx][ki] = observeOne(x.reps[sx], x.k, ki)
+		}
 	}
-	for r := 0; r < 3; r++ {
-		x.knows[r][sy] = x.knows[r][sy] || x.knows[r][sx]
-	}
+	x.knows = spread(x.knows, e)
 	for ki := 0; ki < x.nk; ki++ {
-		a, b, got := top(pre[sx][ki]), top(pre[sy][ki]), top(x.st[sy][ki])
+		a, b := top(pre[sx][ki]), top(pre[sy][ki])
 		want := join(a, b)
 		rel := "equal-rev"
 		switch {
@@ -419,8 +473,10 @@ func (x *bexec) step(e int) {
 		case a.Rev < b.Rev:
 			rel = "sent-older"
 		}
-		x.out.add(fmt.Sprintf("step:%s recv=%s sent=%s", rel, b.kind(), a.kind()))
-		if got != want {
+		judge := func(kind string, old, got bval) {
+			if got == want {
+				return
+			}
 			which := "other"
 			switch got {
 			case a:
@@ -429,11 +485,11 @@ func (x *bexec) step(e int) {
 				which = "recv-value"
 			}
 			verdict := "not-propagated"
-			if less(got, b) {
+			if less(got, old) {
 				verdict = "LOWERED"
 			}
-			key := fmt.Sprintf("b/exchange %s rel=%s recv=%s sent=%s got=%s(%s) want=%s",
-				verdict, rel, b.kind(), a.kind(), which, got.kind(), want.kind())
+			key := fmt.Sprintf("b/%s %s rel=%s recv=%s sent=%s got=%s(%s) want=%s key=K%d",
+				kind, verdict, rel, b.kind(), a.kind(), which, got.kind(), want.kind(), ki+1)
 			x.sink.add(key, x.art())
 			if x.cause == "" {
 				x.cause = key
@@ -441,6 +497,15 @@ func (x *bexec) step(e int) {
 			if ki == 0 {
 				x.lastK1Viol = key
 			}
+		}
+		if isSession(e) {
+			// a = initiator's value (sent first), b = contacted server's value
+			x.out.add(fmt.Sprintf("session-step:%s server=%s initiator=%s", rel, b.kind(), a.kind()))
+			judge("session server-side", b, top(x.st[sy][ki]))
+			judge("session initiator-side", a, top(x.st[sx][ki]))
+		} else {
+			x.out.add(fmt.Sprintf("step:%s recv=%s sent=%s", rel, b.kind(), a.kind()))
+			judge("exchange", b, top(x.st[sy][ki]))
 		}
 	}
 	checkDocs(x, "exchange")
@@ -567,8 +632,8 @@ type gnode struct {
 	digest string
 	path   []int // a shortest known exchange sequence reaching the state
 	vals   [3]bval
-	succ   [6]int    // -1 = not executed yet
-	sviol  [6]string // step-oracle violation on K1 observed when the transition was executed
+	succ   [nEx]int    // -1 = not executed yet
+	sviol  [nEx]string // step-oracle violation on K1 observed when the transition was executed
 	id     int
 }
 
@@ -604,7 +669,10 @@ func exploreB(reps []*node, c bcase, depth int, res *bResult, sink *vsink) []*gn
 		if id, ok := byDigest[dg]; ok {
 			return id
 		}
-		n := &gnode{digest: dg, id: len(nodes), path: append([]int{}, path...), succ: [6]int{-1, -1, -1, -1, -1, -1}}
+		n := &gnode{digest: dg, id: len(nodes), path: append([]int{}, path...)}
+		for e := range n.succ {
+			n.succ[e] = -1
+		}
 		for r := 0; r < 3; r++ {
 			n.vals[r] = top(x.st[r][0])
 		}
@@ -613,7 +681,7 @@ func exploreB(reps []*node, c bcase, depth int, res *bResult, sink *vsink) []*gn
 		return n.id
 	}
 	open := func(n *gnode) int {
-		for e := 0; e < 6; e++ {
+		for e := 0; e < nEx; e++ {
 			if n.succ[e] < 0 {
 				return e
 			}
@@ -625,7 +693,7 @@ func exploreB(reps []*node, c bcase, depth int, res *bResult, sink *vsink) []*gn
 		type qe struct{ id, first int }
 		seen := map[int]bool{cur: true}
 		q := []qe{}
-		for e := 0; e < 6; e++ {
+		for e := 0; e < nEx; e++ {
 			if t := nodes[cur].succ[e]; t >= 0 && !seen[t] {
 				seen[t] = true
 				q = append(q, qe{t, e})
@@ -637,7 +705,7 @@ func exploreB(reps []*node, c bcase, depth int, res *bResult, sink *vsink) []*gn
 			if open(nodes[h.id]) >= 0 {
 				return h.first
 			}
-			for e := 0; e < 6; e++ {
+			for e := 0; e < nEx; e++ {
 				if t := nodes[h.id].succ[e]; t >= 0 && !seen[t] {
 					seen[t] = true
 					q = append(q, qe{t, h.first})
@@ -738,12 +806,8 @@ func exploreB(reps []*node, c bcase, depth int, res *bResult, sink *vsink) []*gn
 			}
 			return
 		}
-		for e := 0; e < 6; e++ {
-			sx, sy := exchanges[e][0], exchanges[e][1]
-			kn := knows
-			for r := 0; r < 3; r++ {
-				kn[r][sy] = kn[r][sy] || kn[r][sx]
-			}
+		for e := 0; e < nEx; e++ {
+			kn := spread(knows, e)
 			t := nodes[sid].succ[e]
 			cs := cause
 			if cs == "" {
@@ -795,7 +859,7 @@ func crossCheckB(reps []*node, c bcase, nodes []*gnode, length int, res *bResult
 		i := length - 1
 		for ; i >= 0; i-- {
 			seq[i]++
-			if seq[i] < 6 {
+			if seq[i] < nEx {
 				break
 			}
 			seq[i] = 0
